@@ -14,14 +14,15 @@ open OdxVerif.Bits OdxVerif.OdxM
 
 /-- one step of the key bookkeeping on the decoding side -/
 theorem KItem.refs_step (W : String → Option Int) (it : KItem) (its : List KItem) (hok : it.ok) (seen : List String)
-    (h : KItems.refsOk W seen (it :: its)) (d : DecState) (hseen : ∀ n ∈ seen, lookup n d.lengthKeys = W n) :
+    (h : KItems.refsOk W seen (it :: its)) (d : DecState) (hcb : d.cursorBit = 0) (hfit : it.toComp.pair.fits d)
+    (hpre : it.toComp.decPre d) (hseen : ∀ n ∈ seen, lookup n d.lengthKeys = W n) :
     ∃ seen', KItems.refsOk W seen' its ∧ (∀ n ∈ seen', lookup n (it.toComp.pair.dec d).2.lengthKeys = W n) ∧
       (∀ u, it = KItem.user u → lookup u.key d.lengthKeys = some u.bits) := by
   cases it with
   | comp g =>
     refine ⟨seen, h, ?_, fun _ e => by cases e⟩
     intro n hn
-    have : (g.pair.dec d).2.lengthKeys = d.lengthKeys := hok.2.2.dec_keys d
+    have : (g.pair.dec d).2.lengthKeys = d.lengthKeys := hok.2.2.dec_keys d hcb hfit hpre
     show lookup n (g.pair.dec d).2.lengthKeys = W n
     rw [this]; exact hseen n hn
   | key o v b =>
@@ -45,14 +46,14 @@ theorem KItems.decPre_intro (W : String → Option Int) : (its : List KItem) →
     Comps.eopLast (KItems.comps its) → ∀ (K : EncState → EncState), Framing K → ∀ (seen : List String),
     KItems.refsOk W seen its → ∀ (s : EncState) (d : DecState), AllBytes s.msg →
     (K ((Comps.pair (KItems.comps its)).enc s)).warn = s.warn → d.origin = s.origin → d.cursorByte = s.cursorByte →
-    AllBytes d.msg → (K ((Comps.pair (KItems.comps its)).enc s)).msg.length ≤ d.msg.length →
+    d.cursorBit = 0 → AllBytes d.msg → (K ((Comps.pair (KItems.comps its)).enc s)).msg.length ≤ d.msg.length →
     (∀ a, getBit (K ((Comps.pair (KItems.comps its)).enc s)).used a = true →
       getBit d.msg a = getBit (K ((Comps.pair (KItems.comps its)).enc s)).msg a) →
     (∀ c ∈ KItems.cells its s, c.holds d.msg) → (∀ n ∈ seen, lookup n d.lengthKeys = W n) →
     (Comps.anyEop (KItems.comps its) = true → ((Comps.pair (KItems.comps its)).dec d).2.cursorByte = d.msg.length) →
     Comps.decPre (KItems.comps its) d
-  | [], _, _, _, _, _, _, _, _, _, _, _, _, _, _, _, _, _, _ => trivial
-  | it :: its, hok, hlast, K, hK, seen, hrefs, s, d, hall, hw, horig, hcur, hdall, hlen, hagree, hcells, hseen, heop => by
+  | [], _, _, _, _, _, _, _, _, _, _, _, _, _, _, _, _, _, _, _ => trivial
+  | it :: its, hok, hlast, K, hK, seen, hrefs, s, d, hall, hw, horig, hcur, hcb, hdall, hlen, hagree, hcells, hseen, heop => by
     have hokit := hok it (List.mem_cons_self ..)
     have hokr : ∀ x ∈ its, x.ok := fun x hx => hok x (List.mem_cons_of_mem _ hx)
     have hgood := it.good hokit
@@ -79,11 +80,14 @@ theorem KItems.decPre_intro (W : String → Option Int) : (its : List KItem) →
     have hlenP : (it.toComp.pair.enc s).msg.length ≤ d.msg.length :=
       Nat.le_trans (hK'.len_mono (it.toComp.pair.enc s)) hlen'
     obtain ⟨hv, hcur1, horg1, hmsg1, hfit1⟩ := hgood.rt s d hall hwp horig hcur hdall hlenP hagreeP
-    obtain ⟨seen', hrefs', hseen', huser⟩ := it.refs_step W its hokit seen hrefs d hseen
     have heop' : Comps.anyEop (it.toComp :: KItems.comps its) = true →
         ((Comps.pair (KItems.comps its)).dec (it.toComp.pair.dec d).2).2.cursorByte = d.msg.length := heop
-    refine ⟨?_, ?_⟩
-    · -- the head
+    have huser : ∀ u, it = KItem.user u → lookup u.key d.lengthKeys = some u.bits := by
+      intro u e
+      subst e
+      rw [hseen _ hrefs.1, hrefs.2.1]
+    have hhead : it.toComp.decPre d := by
+      -- the head
       cases it with
       | comp g =>
         obtain ⟨hgok, hgend, _⟩ := hokit
@@ -108,9 +112,12 @@ theorem KItems.decPre_intro (W : String → Option Int) : (its : List KItem) →
         simp only [decStep, horig, hcur]
         exact this
       | user u => exact huser u rfl
+    obtain ⟨seen', hrefs', hseen', _⟩ := it.refs_step W its hokit seen hrefs d hcb hfit1 hhead hseen
+    refine ⟨hhead, ?_⟩
     · -- the rest
       apply KItems.decPre_intro W its hokr hlastr K hK seen' hrefs' (it.toComp.pair.enc s) (it.toComp.pair.dec d).2
-        (hgood.allBytes s hall) hwK (by rw [horg1, horig, hgood.origin]) hcur1 (by rw [hmsg1]; exact hdall)
+        (hgood.allBytes s hall) hwK (by rw [horg1, horig, hgood.origin]) hcur1
+        ((it.decOk hokit).dec_cursorBit d hcb) (by rw [hmsg1]; exact hdall)
         (by rw [hmsg1]; exact hlen') (by rw [hmsg1]; exact hagree')
       · intro c hc
         rw [hmsg1]
@@ -248,7 +255,7 @@ theorem kitems_roundtrip_msg (W : String → Option Int) (its : List KItem) (hne
   have hcore0 : SameCore s0 {} := ⟨hm, hu, hw0, hc, ho⟩
   have hpre : Comps.decPre (KItems.comps its) { msg := pdu } := by
     apply KItems.decPre_intro W its hok hlast (enc2 (KItems.cells its s0)) hF [] hrefs s0 { msg := pdu } hall hwF0
-      (by simp [ho]) (by simp [hc]) hdall (by rw [hpdu]; exact Nat.le_refl _) hagreeF hcells (fun n h => by cases h)
+      (by simp [ho]) (by simp [hc]) rfl hdall (by rw [hpdu]; exact Nat.le_refl _) hagreeF hcells (fun n h => by cases h)
     intro hany
     rw [hcur, (hg.core _ _ hcore0).2.2.2.1]
     exact hend hany
